@@ -32,6 +32,8 @@ def domain_params(rng, tier):
     big = tier == "thorough"
     H = rng.choice([3, 3, 4, 5, 6, 7, 8, 9, 11, 12, 16, 23, 38, 40, 41, 42,
                     43] + ([60, 81, 82, 83, 120] if big else [81]))
+    if rng.random() < 0.02:
+        H = rng.choice([200, 201, 241])     # DMZ larger than a user subnet
     S = rng.randint(1, 10)
     O = rng.randint(1, 4)
     P = rng.randint(1, 4)
